@@ -71,7 +71,7 @@ h_first(void)
 	__CPROVER_assume(d_nopts <= GO_NOPTS_MAX && d_reset != 0);
 	nopts = d_nopts;
 	opts = d_hastable ? malloc(d_nopts * sizeof(struct opt)) : NULL;
-	optind = d_optind; opt_found = d_found; getopt_initialized = d_init;
+	optind = 1; opt_found = d_found; getopt_initialized = d_init;
 	if (d_pack && a_c > 0) {
 		__CPROVER_assume(d_pk <= a_l[0]);
 		packedopts = &a_v[0][d_pk];
